@@ -52,6 +52,11 @@ pub struct CaseOut {
     /// data handed to `finish` for cross-case analysis
     pub carry: Vec<Value>,
     pub sim_steps: u64,
+    /// set by the worker when its resident memory has grown large (the HTTP server's router leaks
+    /// its swagger page by design - `Box::leak` in aide - once per constructed node): the parent
+    /// replaces the worker process after this case
+    #[serde(default)]
+    pub recycle: bool,
 }
 
 impl CaseOut {
@@ -155,10 +160,16 @@ pub fn worker_main(check: &dyn Check, tier: Tier, seed: u64, wid: usize) {
         if i >= cases.len() {
             break;
         }
-        let out = check.run_case(&cases[i], &cx);
+        let mut out = check.run_case(&cases[i], &cx);
+        let rss_mib = std::fs::read_to_string("/proc/self/statm").ok().and_then(|s| s.split(' ').nth(1).and_then(|x| x.parse::<u64>().ok())).unwrap_or(0) * 4096 / (1 << 20);
+        out.recycle = rss_mib > 600;
+        let recycle = out.recycle;
         let mut o = stdout.lock();
         let _ = writeln!(o, "{}", serde_json::to_string(&out).expect("serialise case result"));
         let _ = o.flush();
+        if recycle {
+            break;
+        }
     }
 }
 
@@ -202,7 +213,17 @@ fn drive_worker(id: String, tier: Tier, seed: u64, wid: usize, shared: Arc<Mutex
         let got = ok && reader.read_line(&mut line).map(|n| n > 0).unwrap_or(false);
         let parsed = if got { serde_json::from_str::<CaseOut>(&line).ok() } else { None };
         match parsed {
-            Some(out) => shared.lock().unwrap().outs.push(out),
+            Some(out) => {
+                let recycle = out.recycle;
+                shared.lock().unwrap().outs.push(out);
+                if recycle {
+                    drop(stdin);
+                    let _ = child.wait();
+                    child = spawn_worker(&id, tier, seed, wid);
+                    stdin = child.stdin.take().unwrap();
+                    reader = BufReader::new(child.stdout.take().unwrap());
+                }
+            }
             None => {
                 // the worker died (abort, allocation failure, stack overflow, double panic)
                 let status = child.wait().map(|s| format!("{s}")).unwrap_or_default();
